@@ -164,18 +164,26 @@ struct Line
         s += k;
         s += "\":";
     }
-    static void chk(ll v)
+    // TLC integers are 32 bit.  A value outside that range (only garbage produced by the code under test can be: every
+    // legitimate quantity of the harness is far smaller) is written as the sentinel 2147483646 and announced by an
+    // "OutOfRange" row right after the current one, which every trace specification reports as a hit.
+    static ll& oor_pending()
+    {
+        static ll n = 0;
+        return n;
+    }
+    static ll chk(ll v)
     {
         if (v >= 2147483647LL || v <= -2147483647LL)
         {
-            fprintf(stderr, "vh: integer out of TLC range: %lld\n", v);
-            fflush(stderr);
-            _exit(3);
+            oor_pending()++;
+            return 2147483646LL;
         }
+        return v;
     }
     Line& i(const char* k, ll v)
     {
-        chk(v);
+        v = chk(v);
         key(k);
         s += std::to_string(v);
         return *this;
@@ -200,10 +208,9 @@ struct Line
         s += "[";
         for (int j = 0; j < n; j++)
         {
-            chk(v[j]);
             if (j)
                 s += ",";
-            s += std::to_string(v[j]);
+            s += std::to_string(chk(v[j]));
         }
         s += "]";
         return *this;
@@ -226,10 +233,9 @@ struct Line
         s += "[";
         for (size_t j = 0; j < v.size(); j++)
         {
-            chk(v[j]);
             if (j)
                 s += ",";
-            s += std::to_string(v[j]);
+            s += std::to_string(chk(v[j]));
         }
         s += "]";
     }
@@ -245,6 +251,13 @@ struct Out
         l.s += "}\n";
         fwrite(l.s.data(), 1, l.s.size(), f);
         lines++;
+        if (Line::oor_pending() > 0)
+        {
+            std::string o = "{\"e\":\"OutOfRange\",\"count\":" + std::to_string(Line::oor_pending()) + "}\n";
+            Line::oor_pending() = 0;
+            fwrite(o.data(), 1, o.size(), f);
+            lines++;
+        }
     }
     void flush() { fflush(f); }
 };
@@ -349,7 +362,7 @@ struct OpStats
 {
     ll count;      // applications of the user's operator since the last reset (true count)
     ll total;      // applications since construction of the stats object
-    ll bad;        // applications with invalid / aliased pointers
+    ll bad;        // applications with invalid / aliased pointers or a non-finite input vector
     ll fault_at;   // throw at this application index (counted on `total`), 0 = never
     ll fault_tag;  // payload of the thrown exception
     ll probe;      // applications performed while "probe mode" (complex-shift post-processing)
@@ -412,6 +425,19 @@ struct CountOp
         const Eigen::Index n = in.rows();
         if (x == NULL || y == NULL || (x <= y && y < x + n) || (y <= x && x < y + n))
             st->bad++;
+        else
+        {
+            // a valid input vector is finite as well: the library must never hand NaN / Inf to the user's operator
+            for (Eigen::Index i = 0; i < n; i++)
+            {
+                const LD re = (LD) Eigen::numext::real(x[i]), im = (LD) Eigen::numext::imag(x[i]);
+                if (std::isnan(re) || std::isinf(re) || std::isnan(im) || std::isinf(im))
+                {
+                    st->bad++;
+                    break;
+                }
+            }
+        }
         if (st->fault_at && st->total == st->fault_at)
         {
             st->thrown++;
